@@ -596,6 +596,8 @@ class DataLinkConnection(TransmissionControlObject):
                 send_pdu = pdu.Disconnect(self.peer, self.addr)
                 self.send_queue.clear()
                 self.send_queue.append(send_pdu)
+                # unread data must not be taken for the DM we wait for
+                self.recv_queue.clear()
                 try:
                     super(DataLinkConnection, self).recv()
                 except IndexError:
